@@ -45,7 +45,8 @@ PROBE_FLOORS = {"negative_cash": 200, "floor_positive_cash_negative_net_rate": 5
                 "backwards_time_rejected": 200, "margined_position_alongside": 100, "empty_rebalance_accrual": 100,
                 "env_level_interest_checked": 300, "rate_book_zero_before_first_rate_event": 100,
                 "timezone_aware_mixed_offsets": 2000, "accrual_clock_started_by_rebalance": 200,
-                "rate_event_replayed_at_reset": 50, "rate_book_checked_at_execution": 2000}
+                "rate_event_replayed_at_reset": 50, "rate_book_checked_at_execution": 2000,
+                "futures_price_moved_between_accruals": 500}
 getcontext().prec = 50
 
 
@@ -210,6 +211,15 @@ def generate(rng, i):
         else:
             script.append({"op": "accrue", "dt": dt})
     script.append({"op": "accrue", "dt": rng.choice(dts)})
+    if setup == "with_future" and rng.random() < 0.5:
+        # the futures price moves between accrual points, with nobody valuing the account in between: unsettled
+        # variation margin is not idle cash, so the interest of the period must not depend on it
+        out = []
+        for op in script:
+            if op["op"] in ("accrue", "rebal_empty") and rng.random() < 0.6:
+                out.append({"op": "fquote", "f": rng.choice([0.98, 0.99, 1.01, 1.02])})
+            out.append(op)
+        script = out
     zones = None
     if rng.random() < 0.25:
         # the same instants written as timezone-aware timestamps, each call in a zone of its own
@@ -221,7 +231,7 @@ def generate(rng, i):
     if rng.random() < (0.4 if zones else 0.1) and cash > 0:
         # every accrual point, including the one that starts the accrual clock, is a rebalance that trades nothing
         only_rebalances = True
-        script = [dict(op, op="rebal_empty") if op["op"] == "accrue" else op for op in script if op["op"] in ("accrue", "rebal_empty", "rate")]
+        script = [dict(op, op="rebal_empty") if op["op"] == "accrue" else op for op in script if op["op"] in ("accrue", "rebal_empty", "rate", "fquote")]
     return {"kind": "c06", "zones": zones, "only_rebalances": only_rebalances, "cash": cash, "rate": rate, "markup": markup, "setup": setup,
             "lev": rng.choice([1.5, 2.0, 3.0]), "fut_side": rng.choice([1, -1]), "t0": "2000-01-01T00:00:00", "script": script}
 
@@ -244,6 +254,7 @@ class Account(object):
             self.b.transact(Trade(self.t, c, q, 10.0, 10.0, self.fees))
         elif with_position == "with_future":
             c = world.build_contract({"name": "M", "kind": "margined", "mult": 50.0, "mreq": 0.1})
+            self.fut, self.fut_px = c, 100.0
             self.ex.process_EventNBBO(EventNBBO(self.t, c, 100.0, 100.0))
             q = sc["fut_side"] * 0.5 * cash / (100.0 * 50.0 * 0.1)
             self.b.transact(Trade(self.t, c, q, 100.0, 100.0, self.fees))
@@ -273,6 +284,10 @@ class Account(object):
 
     def cash(self):
         return self.b.holdings_quantity[Cash()]
+
+    def move_future(self, f):
+        self.fut_px = self.fut_px * f
+        self.ex.process_EventNBBO(EventNBBO(self.t, self.fut, self.fut_px, self.fut_px))
 
     def set_rate(self, r):
         self.ex.process_EventNBBO(EventNBBO(self.t, Rate(world.RATE_NAME), r, r))
@@ -311,6 +326,8 @@ def _execute(sc):
     if cash0 < 0:
         probe("negative_cash")
     constant_rate = True
+    settled = False
+    unsettled = False
     rate_changed_since_accrual = False
     last_accrual_t = P.t_utc
     cuts = 0
@@ -336,8 +353,9 @@ def _execute(sc):
         for k, op in enumerate(sc["script"]):
             cur[0] = k
             name = op["op"]
-            if name == "rebal_empty" and P.b.net_liquidation_value(raise_if_broke=False) <= 0:
-                name = "accrue"   # a broke account cannot rebalance (C09); accrue directly
+            if name == "rebal_empty" and setup == "deposit" and P.cash() <= 0:
+                name = "accrue"   # a broke account cannot rebalance (C09); accrue directly (a deposit-only account is
+                                  # worth its cash; it is deliberately not valued here - a valuation settles margins)
             stats["ops"] += 1
             rec = [k, name]
             for a in (P, Q, S, Fz):
@@ -384,7 +402,9 @@ def _execute(sc):
                 stats["sim_seconds"] += int(secs)
                 check_amount(k, bal, amt, secs, name)
                 new = P.cash()
-                if abs(new - (bal + amt)) > 1e-12 * max(1.0, abs(bal)):
+                if name == "rebal_empty" and unsettled:
+                    unsettled = False       # the rebalance valued the account: variation margin moved into / out of cash as well
+                elif abs(new - (bal + amt)) > 1e-12 * max(1.0, abs(bal)):
                     violate(k, "not_credited", "balance {} + amount {} != new balance {}".format(bal, amt, new), kind="credit")
                 if amts[1] != amt or Q.cash() != new:
                     violate(k, "query_changed_result", "account without queries/rejected calls got {} (cash {}) but the primary {} (cash {})".format(
@@ -450,6 +470,14 @@ def _execute(sc):
                 if P.cash() != bal:
                     violate(k, "backwards_time", "a rejected call changed the balance", exc="changed")
                 trace.append("B")
+            elif name == "fquote":
+                for a in (P, Q, S):
+                    a.move_future(op["f"])
+                Fz = None                   # the twin without the position has no variation margin to settle
+                settled = True
+                unsettled = True
+                probe("futures_price_moved_between_accruals")
+                trace.append("F")
             elif name == "rate":
                 for a in (P, Q, S, Fz):
                     if a is not None:
@@ -465,10 +493,10 @@ def _execute(sc):
             pos_now = {k: v for k, v in P.b.holdings_quantity.items() if not isinstance(k, Cash)}
             margins_now = {k: v for k, v in P.b.holdings_margins.items() if v != 0}
             if {k: v for k, v in pos_now.items() if v != 0} != {k: v for k, v in positions0.items() if v != 0} or \
-                    margins_now != {k: v for k, v in margins0.items() if v != 0}:
+                    (margins_now != {k: v for k, v in margins0.items() if v != 0} and not settled):
                 violate(len(sc["script"]), "margin_earned_interest", "positions or posted margins changed through accruals", kind="margins_changed")
             # split invariance: S accrues once over the whole span
-            if constant_rate:
+            if constant_rate and not settled:
                 S.t_utc = P.t_utc
                 if S.by_rebalance and S.b.net_liquidation_value(raise_if_broke=False) > 0:
                     try:
